@@ -115,6 +115,14 @@ STRENGTH = {
  "C18-G": "missed by inspection: the check was extended on reading the change's description, before its first run (its oracle had taken the resolved name from the library itself): histories now re-point links between checks and the resolution is computed independently",
  "C19-G": "missed by inspection: the check was extended on reading the change's description, before its first run (it had closed every descriptor right after each receive): messages are now kept and looked at after later receives",
  "C20-G": "missed at first; groups that already exist in some of the v1 hierarchies only are now opened by New(name), handle.New and handle.Nest and destroyed; what was there before must survive with its limits",
+ # sixth round (one change H per property, same rules, told to avoid rounds 1-5)
+ "C01-H": "first detection had no concrete input (the regenerated Build no longer matched); for a third of the small policies the policies that list the same names with the allow/trace boundary elsewhere, in another order, with another default, and the same policy again are now built in the same process",
+ "C02-H": "missed at first; chains of 36..42 links (in the last component, or half of them in directory components) are now resolved against the kernel, and C02_gen_link_budget ties the comparison and the constant",
+ "C03-H": "missed at first; forked processes and the main process may now replace their image by execve in the middle of the program (new probe command `exec`)",
+ "C05-H": "missed at first; several configurations (from NewDefaultBuilder and NewBuilder) are now prepared before any of them is used and each sandbox must get the table its own builder calls declared",
+ "C06-H": "missed at first; launches are now also made while four goroutines of the launcher loop over unixsocket.NewSocketPair and memfd.DupToMemfd",
+ "C08-H": "missed at first; the file-size and CPU limits are now also exhausted by a forked child (the parent waits and exits 128+signal) and by a second thread",
+ "C10-H": "first detection had no concrete input (the regenerated Ping no longer matched C10_gen_simple_calls); the container init is now stopped for longer than a Ping waits and continued, and the calls after it must all fail or all get their own answer",
 }
 
 out = []
@@ -176,7 +184,7 @@ for d in sorted(glob.glob(os.path.join(VERIF, "seeded", "C*-*"))):
     if not os.path.isdir(d):
         continue
     letter = os.path.basename(d).split("-")[1][0]
-    grp = {"A": "A/B", "B": "A/B", "C": "C/D", "D": "C/D", "E": "E/F", "F": "E/F", "G": "G"}.get(letter, letter)
+    grp = {"A": "A/B", "B": "A/B", "C": "C/D", "D": "C/D", "E": "E/F", "F": "E/F", "G": "G", "H": "H"}.get(letter, letter)
     f = os.path.join(d, "meta_first_run.json")
     if not os.path.exists(f):
         f = os.path.join(d, "meta.json")
@@ -231,7 +239,7 @@ nth = sum(len(theorems(p)) for p in props.PROPS)
 head = head.replace("24 genuine defects of go-sandbox were found; 20 are repaired by `fix:` commits in /repo, 4 are recorded",
                     "%d genuine defects of go-sandbox were found; %d are repaired by `fix:` commits in /repo, %d are recorded" % (len(fixed) + len(opens), len(fixed), len(opens)))
 nseeded = len([d for d in glob.glob(os.path.join(VERIF, "seeded", "C*-*")) if os.path.isdir(d)])
-head = head.replace("* 40 seeded property-breaking changes (two per property, written by sub-agents that saw only the property\n  text)", "* %d seeded property-breaking changes (two per property in each of four rounds and one per property in a fifth, the later ones\n  written after the checks existed and told to avoid the earlier ideas; all written by sub-agents that saw only the property text)" % nseeded)
+head = head.replace("* 40 seeded property-breaking changes (two per property, written by sub-agents that saw only the property\n  text)", "* %d seeded property-breaking changes (two per property in each of four rounds and one per property in a fifth and a sixth, the later ones\n  written after the checks existed and told to avoid the earlier ideas; all written by sub-agents that saw only the property text)" % nseeded)
 head = head.replace("all 40 are detected by the check of their property, 9 of them only after the\n  check was strengthened (section 8 says which and how).",
                     "all %d are detected by the check of their property; %d were missed by the version of the check that existed when they\n  were written and %d more were first detected without a concrete failing input — section 8 says which, and how the\n  checks were strengthened (never by telling a check about a particular change)." % (nseeded, len(missed), len(STRENGTH) - len(missed)))
 head = head.replace("* Levels are stated per property", "* %d kernel-checked theorems in the 20 property files.\n* Levels are stated per property" % nth)
